@@ -40,6 +40,7 @@ type Contract struct {
 	Props    []string
 	Requires []*Clause
 	Assumes  []*Clause
+	Excepts  []*Clause // known-finding carve-outs: name = KF id, E = predicate describing the inputs that fail
 	Ensures  []*Clause
 	Modifies []*ModItem
 	modSrc   []string
@@ -50,6 +51,7 @@ type Contract struct {
 	Lemma    bool
 	Splits   []string
 	rawMods  []rawMod
+	Witness  map[string]map[string]SExpr // clause name → existential variable → witness term (tried at return sites)
 }
 
 type rawMod struct {
@@ -453,6 +455,17 @@ func (e *Engine) parseContracts() {
 				continue
 			}
 			cur.Requires = append(cur.Requires, mkClauses(l, rest, fmt.Sprintf("req%d", len(cur.Requires)))...)
+		case "except":
+			if cur == nil {
+				perr(l, "except outside a contract")
+				continue
+			}
+			c := mkClause(l, rest, "")
+			if !strings.HasPrefix(c.Name, "KF-") {
+				perr(l, "except needs a known-finding id: except KF-...: predicate")
+				continue
+			}
+			cur.Excepts = append(cur.Excepts, c)
 		case "assume":
 			if cur == nil {
 				perr(l, "assume outside a contract")
@@ -493,6 +506,30 @@ func (e *Engine) parseContracts() {
 					cur.Flags[f] = true
 				}
 			}
+		case "witness":
+			// witness <clause> <var> = <expr>
+			if cur == nil {
+				perr(l, "witness outside a contract")
+				continue
+			}
+			f := strings.Fields(rest)
+			eqi := strings.Index(rest, "=")
+			if len(f) < 4 || eqi < 0 {
+				perr(l, "witness <clause> <var> = <expr>")
+				continue
+			}
+			ex, err := parseSpec(strings.TrimSpace(rest[eqi+1:]))
+			if err != nil {
+				perr(l, "%v", err)
+				continue
+			}
+			if cur.Witness == nil {
+				cur.Witness = map[string]map[string]SExpr{}
+			}
+			if cur.Witness[f[0]] == nil {
+				cur.Witness[f[0]] = map[string]SExpr{}
+			}
+			cur.Witness[f[0]][f[1]] = ex
 		case "split":
 			if cur != nil {
 				cur.Splits = append(cur.Splits, rest)
@@ -781,4 +818,80 @@ func splitConj(e SExpr) []SExpr {
 		}
 	}
 	return []SExpr{e}
+}
+
+// instantiateWitness replaces positively occurring existential quantifiers over
+// a variable with a witness term: proving P(w) proves exists k :: P(k).
+func instantiateWitness(e SExpr, wit map[string]SExpr) SExpr {
+	switch n := e.(type) {
+	case *sParen:
+		return &sParen{instantiateWitness(n.SExpr, wit)}
+	case *SBinary:
+		if n.Op == "&&" || n.Op == "||" {
+			return &SBinary{n.Op, instantiateWitness(n.X, wit), instantiateWitness(n.Y, wit)}
+		}
+		if n.Op == "==>" {
+			return &SBinary{n.Op, n.X, instantiateWitness(n.Y, wit)}
+		}
+	case *SQuant:
+		if !n.Forall && len(n.Vars) == 1 {
+			if w, ok := wit[n.Vars[0].Name]; ok {
+				return substExpr(n.Body, n.Vars[0].Name, w)
+			}
+		}
+		if n.Forall {
+			return &SQuant{Forall: true, Vars: n.Vars, Body: instantiateWitness(n.Body, wit)}
+		}
+	}
+	return e
+}
+
+// substExpr replaces identifier name by expression w.
+func substExpr(x SExpr, name string, w SExpr) SExpr {
+	switch n := x.(type) {
+	case *SIdent:
+		if n.Name == name {
+			return w
+		}
+		return n
+	case *sParen:
+		return &sParen{substExpr(n.SExpr, name, w)}
+	case *SUnary:
+		return &SUnary{n.Op, substExpr(n.X, name, w)}
+	case *SBinary:
+		return &SBinary{n.Op, substExpr(n.X, name, w), substExpr(n.Y, name, w)}
+	case *SCall:
+		var as []SExpr
+		for _, a := range n.Args {
+			as = append(as, substExpr(a, name, w))
+		}
+		return &SCall{n.Fun, as}
+	case *SMCall:
+		var as []SExpr
+		for _, a := range n.Args {
+			as = append(as, substExpr(a, name, w))
+		}
+		return &SMCall{substExpr(n.X, name, w), n.Name, as}
+	case *SSel:
+		return &SSel{substExpr(n.X, name, w), n.Name}
+	case *SIndex:
+		return &SIndex{substExpr(n.X, name, w), substExpr(n.I, name, w)}
+	case *SSlice:
+		var lo, hi SExpr
+		if n.Lo != nil {
+			lo = substExpr(n.Lo, name, w)
+		}
+		if n.Hi != nil {
+			hi = substExpr(n.Hi, name, w)
+		}
+		return &SSlice{substExpr(n.X, name, w), lo, hi}
+	case *SQuant:
+		for _, v := range n.Vars {
+			if v.Name == name {
+				return n
+			}
+		}
+		return &SQuant{n.Forall, n.Vars, substExpr(n.Body, name, w)}
+	}
+	return x
 }
